@@ -49,6 +49,9 @@ def gen_cases(rng, tier):
         c["resp"]["assertions"][0]["decryptable"] = False
         c["tag"] += "/undecryptable"
         yield c
+    # the same table on the attribute-query answer path (parse_attribute_query_response)
+    for opts, rsig, asig, enc in itertools.product(OPTS, SIGS, SIGS, (False, True)):
+        yield C.as_attr(cell(opts, rsig, asig, enc, "soap"), keep_authn=(rsig == asig))
     n = 1 if tier == "quick" else 6
     sample = list(itertools.product(OPTS, SIGS, SIGS, (False, True), ("post", "redirect", "soap")))
     if tier == "quick":
@@ -91,6 +94,9 @@ def gen_cases(rng, tier):
             c["resp"]["assertions"][0]["sig"] = "untrusted"
         c["tag"] += "/unknown-issuer"
         yield c
+    # cross-dimension stream: every dimension of the SP model varied at once
+    for _ in range(150 if tier == "quick" else 4000):
+        yield C.random_full(rng, PROP)
 
 
 def search_cases(rng, broken, build_log):
